@@ -597,7 +597,10 @@ def validate_traces_generic(specdir, module, cfg, traces, stats, verdict, subjec
                     what = first_diff(ev.get("obs"), exp[0]["obs"]) or "trace-rejected"
             sig = {"subject": subject, "op": ev["op"].get("op"), "variant": ev.get("variant") or None, "what": what}
             if sig_extra:
-                sig.update(sig_extra(tr, ev) or {})
+                try:
+                    sig.update(sig_extra(tr, ev, p) or {})
+                except TypeError:
+                    sig.update(sig_extra(tr, ev) or {})
             verdict.fail(sig, {"trace_meta": {k: v for k, v in tr.items() if k != "ev"}, "rejected_at_event": p["l"],
                                "event": ev, "spec_state_before": p.get("st"), "spec_expected": exp,
                                "history": [dict(e["op"], _variant=e.get("variant")) if isinstance(e["op"], dict) else e["op"]
@@ -666,6 +669,7 @@ def _walk_worker(i):
                     why = why or w_
                 if nxt is None:
                     sig = {"subject": adapter.subject, "op": op.get("op"), "variant": variant, "what": why, "mode": "walk"}
+                    sig.update(adapter.signature(graph.states[cur], op, variant, got, obs, outs) or {})
                     v.fail(sig, {"concretisation": adapter.name, "walk_history": list(hist), "source_state": graph.states[cur],
                                  "expected": [{"outcome": o, "obs": graph.obs[tk]} for o, tk in outs][:3],
                                  "observed": {"outcome": got, "obs": obs}})
